@@ -13,6 +13,9 @@ pub fn kgen() -> Vec<NB> {
     ]
     .iter()
     .map(|k| NB::new(if k.is_empty() { "<empty>" } else { k }, k.as_bytes()))
+    .chain([NB::new("key55", &[b'k'; 55]), NB::new("key56", &[b'k'; 56]), NB::new("key-nonascii", &[0xff, 0x00, 0x80])])
+    // look-alikes of reserved keys: ordinary custom keys for every rule
+    .chain(["i", "ip4", "tcp66", "udp4", "ID", "secp256k", "secp256k11", "ed2551", "client2"].iter().map(|k| NB::new(k, k.as_bytes())))
     .collect()
 }
 
